@@ -35,7 +35,7 @@ CHECKS = {
          "Every composition of <=3 (thorough <=4) actors from a 31-actor alphabet is run under every listed budget / drain mode / split; all schedules of a program must give one trace, equal to the golden order, every callback id exactly once.",
          "Trusts V8 as the spec order for <=3 actors and the FIFO merge model (re-checked against every golden entry each run) beyond.", "DESIGN.md §3 C16"),
  "C02": ("bounded-exhaustive enumeration of byte strings, token strings, nesting depths, iterator-x-mutation programs and reuse pairs, each parsed/evaluated on the real engine in child processes; outcome-class oracle",
-         "All byte strings <=2, all strings over a 27-element byte alphabet and a 63-token alphabet up to the tier's length, 27 nestable constructs x depths 1..64, every (re-entering builtin, mutating callback) pair and every ordered pair of a reuse pool on one context are executed; every outcome must be a value, a JavaScript exception or a RuntimeLimit (never a panic, abort, EnginePanic or hang).",
+         "All byte strings <=2, all strings over a 27-element byte alphabet and a 66-token alphabet up to the tier's length, 27 nestable constructs x depths 1..64, every (re-entering builtin, mutating callback) pair, every Map/Set iteration x short sequence of collection mutations inside the callback, and every ordered pair of a reuse pool on one context are executed; every outcome must be a value, a JavaScript exception or a RuntimeLimit (never a panic, abort, EnginePanic or hang).",
          "Debug assertions and overflow checks are on in the harness build; a crash of a child process is an observation (Abort).", "DESIGN.md §3 C02"),
  "C06": ("stateless enumeration of all operation histories (object/prototype mutations interleaved with access-site invocations) up to a depth, each executed on the real engine with inline caches on and off (cfg boa_verif switch); trace equality",
          "Every history over the named alphabets at the stated depths whose last operation is an access-site invocation runs with caches on and with caches off; values read, accessor calls, errors and a final structural dump must be equal.",
@@ -58,7 +58,7 @@ CHECKS = {
  "C18": ("bounded-exhaustive enumeration of JSON texts (all texts <= L characters over 33 characters, all token sequences <= K tokens), nesting depths, small values x replacers x indents, all code units, executed on the real engine and compared with an own ECMA-404 recogniser/evaluator and a transliterated JSON.stringify",
          "Accept/reject, parsed value (canonical dump), reviver walk, stringify output and parse(stringify(v)) are compared with the reference for every enumerated case.",
          "Reference cross-validated against Python's json on every run and against V8 on the whole thorough space at authoring time; the reviver's `context.source` argument (proposal) is not part of the verdict.", "DESIGN.md §3 C18"),
- "C19": ("bounded-exhaustive enumeration of token strings (<= K of 63 tokens), family programs and their single token-level mutants through parse -> print -> parse -> print on the real parser, plus evaluation of text and printed form",
+ "C19": ("bounded-exhaustive enumeration of token strings (<= K of 66 tokens), family programs and their single token-level mutants through parse -> print -> parse -> print on the real parser, plus evaluation of text and printed form",
          "For every text the parser must return an AST or an error positioned inside the text without interning foreign strings; for every accepted text the printed form must re-parse, print identically (twice), not grow the interner and evaluate to the same trace as the original.",
          "AST equality is judged through the printed form.", "DESIGN.md §3 C19"),
  "C20": ("explicit enumeration of (program, prior-history) pairs: each history is replayed in one process on the real engine; byte-identical traces required; realm sabotage and cross-realm intrinsic probes inside one context",
